@@ -423,6 +423,12 @@ def gen_roundtrip_programs(r, n, big=0.03):
             ops += w
             widx = len(ops) - 1
             st = sri_tok(algo, d)
+            # somebody else then tries to store the SAME bytes and is turned away (wrong declared size, or a
+            # declared integrity of other data): the first write's data must still read back
+            if algo != "xxh3" and r.chance(0.2):
+                wrong = {"size": len(d) + 3} if r.chance(0.5) else {"sri": L.sri_of(algo, d + b"?")}
+                _, wr = w_stream(ids, r.pick("sa"), b"turned-away" if r.chance(0.6) else None, d, G.chunking(r, d), algo=algo, **wrong)
+                ops += wr
             reads = []
             for rf in ("s", "a"):
                 if key is not None:
@@ -638,11 +644,19 @@ def gen_history_programs(r, n, maxlen=25, removals=True, full=False):
             k = r.pick(keys)
             what = r.random()
             fl = r.pick("sa")
-            if what < 0.55:
+            if what < 0.5:
                 d = r.pick(vals)
                 w, algo = random_write(r, ids, k, d, fl=fl)
                 ops += w
                 steps.append((len(ops) - 1, "write", k, algo, d))
+            elif what < 0.55:
+                # a REJECTED write (wrong declared size) of bytes the cache may already hold under other keys:
+                # nothing may change for anyone (its content is published by address, which is harmless)
+                d = r.pick(vals)
+                algo = r.pick(L.ALGOS)
+                _, w = w_stream(ids, fl, k if r.chance(0.7) else None, d, G.chunking(r, d), algo=algo, size=len(d) + r.pick([1, 7]))
+                ops += w
+                steps.append((len(ops) - 1, "rejected", k, algo, d))
             elif what < 0.8 and removals:
                 ops.append(f"remove {fl} c0 {hx(k)}")
                 steps.append((len(ops) - 1, "remove", k, None, None))
@@ -670,6 +684,31 @@ def gen_history_programs(r, n, maxlen=25, removals=True, full=False):
         steps.append((len(ops) - 1, "list", None, None, None))
         progs.append(Program(f"hist{i}", ops, tags={"steps": steps, "keys": keys}))
     return scripted_histories(r) + progs
+
+
+def gen_key_matrix_programs(r):
+    """Every hostile key through the same short life: written, looked up, removed (tombstone), looked up, written
+    again, removed fully, looked up - sync and async.  Deterministic coverage of "whatever the key" for the
+    writers, the removers and the listing (a hand-rolled serialisation of one record kind shows here)."""
+    progs = []
+    for ki, k in enumerate(G.KEYS_HOSTILE):
+        for fl in "sa":
+            ops, steps = [], []
+            other = b"bystander"
+            d1, d2 = b"first value", b"second value"
+            def obs():
+                for kk in (k, other):
+                    for of in "sa":
+                        ops.append(f"metadata {of} c0 {hx(kk)}"); steps.append((len(ops) - 1, "meta", kk, None, None))
+                    ops.append(f"read {fl} c0 {hx(kk)}"); steps.append((len(ops) - 1, "read", kk, None, None))
+                ops.append("list c0"); steps.append((len(ops) - 1, "list", None, None, None))
+            ops.append(w_oneshot("s", "sha256", other, b"bystander value")); steps.append((len(ops) - 1, "write", other, "sha256", b"bystander value"))
+            ops.append(w_oneshot(fl, "sha256", k, d1)); steps.append((len(ops) - 1, "write", k, "sha256", d1)); obs()
+            ops.append(f"remove {fl} c0 {hx(k)}"); steps.append((len(ops) - 1, "remove", k, None, None)); obs()
+            ops.append(w_oneshot(fl, "sha512", k, d2)); steps.append((len(ops) - 1, "write", k, "sha512", d2)); obs()
+            ops.append(f"remove_fully {fl} c0 {hx(k)}"); steps.append((len(ops) - 1, "remove_fully", k, None, None)); obs()
+            progs.append(Program(f"keylife{ki}{fl}", ops, tags={"steps": steps, "keys": [k, other], "variety": ("keylife", ki, fl)}))
+    return progs
 
 
 def scripted_histories(r):
@@ -719,6 +758,10 @@ def mon_history(rr):
                 idx[k] = (algo, d); store.add((algo, d)); index_dir = True
             else:
                 out.append(Failure("write_failed", i, f"write -> {' '.join(res[:3])}", sig={"op": "write"}))
+        elif kind == "rejected":
+            if res[:2] != ["err", "size"]:
+                out.append(Failure("not_rejected", i, f"commit with a wrong declared size -> {' '.join(res[:3])}", sig={"op": "wcommit"}))
+            store.add((algo, d))          # the content is published before the declarations are checked
         elif kind == "remove":
             if res[0] == "ok":
                 idx.pop(k, None); index_dir = True
@@ -793,7 +836,7 @@ def mon_list_agrees_with_lookup(rr):
     for (i, kind, k, algo, d) in rr.prog.tags["steps"]:
         if i >= len(rr.impl):
             break
-        if kind in ("write", "remove", "remove_fully", "clear", "remove_hash"):
+        if kind in ("write", "remove", "remove_fully", "clear", "remove_hash", "rejected"):
             last_meta = {}
         elif kind == "meta":
             last_meta[k] = norm(rr.impl[i])
@@ -814,6 +857,31 @@ def mon_list_agrees_with_lookup(rr):
                     if listed.get(kk) != ml[3:]:
                         out.append(Failure("list_differs_from_lookup", i, f"{kk!r}: listing and lookup differ", sig={"op": "list"}))
     return out
+
+
+def gen_foreign_listing_programs(r):
+    """C10: buckets holding checksummed records whose integrity text is odd (unknown algorithm, empty, no hash at
+    all, undecodable digest ...), alone, after / before a valid record and after a tombstone of the same key:
+    whatever the library makes of such a record, a lookup and the listing must make the SAME of it."""
+    progs = []
+    for name, integ in FOREIGN_INTEGRITIES.items():
+        for shape in ("alone", "valid-foreign", "valid-tomb-foreign", "foreign-valid", "foreign-tomb"):
+            k = f"fl-{name}".encode()
+            good = L.frame(L.record_json(k.decode(), L.sri_of("sha256", b"v"), 5, 1, None, None))
+            tomb = L.frame(L.record_json(k.decode(), None, 6, 0, None, None))
+            odd = L.frame(L.record_json(k.decode(), integ, 7, 0, None, None))
+            recs = {"alone": [odd], "valid-foreign": [good, odd], "valid-tomb-foreign": [good, tomb, odd],
+                    "foreign-valid": [odd, good], "foreign-tomb": [odd, tomb]}[shape]
+            other = b"bystander"
+            ops = [w_oneshot("s", "sha256", other, b"x"), f"put c0/{L.bucket_rel(k)} {hx(b''.join(recs))}"]
+            steps = []
+            for kk in (k, other):
+                for fl in "sa":
+                    ops.append(f"metadata {fl} c0 {hx(kk)}"); steps.append((len(ops) - 1, "meta", kk, None, None))
+                    ops.append("list c0"); steps.append((len(ops) - 1, "list", None, None, None))
+            progs.append(Program(f"flist-{name}-{shape}", ops, tags={"steps": steps, "keys": [k, other], "foreign_integrity": name,
+                                                                       "listing_only": True, "variety": ("flist", name, shape)}))
+    return progs
 
 
 def gen_shared_removal_programs(r, n):
